@@ -40,12 +40,12 @@ ASSUMPTIONS = E1_ASSUMPTIONS + [
     "bracket comment or doccomment (which leaves it unterminated)",
     "an unterminated bracket *argument* is not one of the families the statement names: such cases are discarded",
     "the fault-free configuration (same worlds, no corruption) must exit 0 and write the page"]
-PROBES = ["healthy_input_after_faulty", "stale_page_newer_than_source", "settings_profile_used", "module_without_any_doccomment", "read_error_on_input", "family_unterminated-string", "family_unterminated-bracket-comment", "family_invalid-escape",
+PROBES = ["fault_repeated_256_times", "stray_bytes_not_utf8", "healthy_input_after_faulty", "stale_page_newer_than_source", "settings_profile_used", "module_without_any_doccomment", "read_error_on_input", "family_unterminated-string", "family_unterminated-bracket-comment", "family_invalid-escape",
           "family_unbalanced-paren", "family_stray-text", "mode_o", "mode_stdout", "in_tree", "stale_page_present",
           "pair", "fault_between_commands", "fault_inside_arguments", "rest_of_file_swallowed_candidate"]
 
 KINDS = ["truncate", "quote", "escape", "escape_eof", "rparen", "lparen", "del_rparen", "bareword", "bcomment",
-         "bcomment_eq"]
+         "bcomment_eq", "bareword_bytes", "many"]
 COMMENT = (cmakegen.LC, cmakegen.BC, cmakegen.DOC)
 
 
@@ -143,6 +143,14 @@ def candidates(tokens, kinds):
         out.append({"kind": "bareword", "pos": n, "ctx": "between"})
     if "escape_eof" in kinds:
         out.append({"kind": "escape_eof", "pos": n, "ctx": "between"})
+    if "bareword_bytes" in kinds:
+        # stray text written in bytes that are neither ASCII nor valid UTF-8 (Latin-1 letters)
+        out.append({"kind": "bareword_bytes", "pos": n, "ctx": "between"})
+        out.append({"kind": "bareword_bytes", "pos": 0, "ctx": "between"})
+    if "many" in kinds:
+        # the same fault a few hundred times over (exit statuses are 8 bits wide)
+        for count in (255, 256, 257, 512):
+            out.append({"kind": "many", "pos": n, "ctx": "between", "count": count, "what": ")" if count % 2 else "word"})
     for k in ("quote", "bcomment", "bcomment_eq", "rparen", "lparen"):
         if k in kinds:
             out.append({"kind": k, "pos": n, "ctx": "between"})
@@ -176,6 +184,12 @@ def apply_faults(text, faults):
             s = s[:p] + "#[[ " + s[p:]
         elif k == "bcomment_eq":
             s = s[:p] + "#[=[ " + s[p:]
+        elif k == "bareword_bytes":
+            s = s[:p] + "\u00e9\u00e8\u00a0\n" + s[p:]
+        elif k == "many":
+            # each fault is followed by a healthy command so that the parser leaves error recovery in between
+            unit = ")\nset(zqmany 1)\n" if f.get("what") == ")" else "set(zqmany \\a)\n"
+            s = s + ("\n" if not s.endswith("\n") else "") + unit * f["count"]
     return s
 
 
@@ -185,11 +199,13 @@ def fault_sets(spec):
         return [list(fs) for fs in plan["explicit"]]
     singles = candidates([tuple(t) for t in spec["tokens"]], plan["kinds"])
     limit = plan.get("max_faults", 10 ** 9)
+    specials = [f for f in singles if f["kind"] in ("many", "bareword_bytes")]     # never thinned out
+    singles = [f for f in singles if f["kind"] not in ("many", "bareword_bytes")]
     if len(singles) > limit:
         stride = -(-len(singles) // limit)
         ph = plan.get("phase", 0) % stride
         singles = [f for i, f in enumerate(singles) if i % stride == ph]
-    sets = [[f] for f in singles]
+    sets = [[f] for f in singles] + [[f] for f in specials]
     if plan.get("pairs") and len(singles) >= 2:
         rnd = random.Random(f"pairs:{plan['pair_seed']}")
         for _ in range(plan["pairs"]):
@@ -237,7 +253,8 @@ def evaluate(spec, ctx):
             ctx.probes["in_tree"] += 1
 
         def run(text, old_timestamp=False):
-            with open(src, "w") as f:
+            # non-ASCII stray text is stored as Latin-1 bytes: not decodable as ASCII or UTF-8
+            with open(src, "w", encoding="latin-1" if not text.isascii() else "ascii") as f:
                 f.write(text)
             if old_timestamp:
                 st_ = os.stat(src)
@@ -298,6 +315,10 @@ def evaluate(spec, ctx):
             ctx.probes["family_" + family] += 1
             if len(fs) > 1:
                 ctx.probes["pair"] += 1
+            if fs[0]["kind"] == "many" and fs[0]["count"] % 256 == 0:
+                ctx.probes["fault_repeated_256_times"] += 1
+            if fs[0]["kind"] == "bareword_bytes":
+                ctx.probes["stray_bytes_not_utf8"] += 1
             ctx.probes["fault_between_commands" if fs[0].get("ctx") == "between" else "fault_inside_arguments"] += 1
             if fs[0]["kind"] in ("bcomment", "bcomment_eq", "quote") and fs[0].get("ctx") == "between":
                 ctx.probes["rest_of_file_swallowed_candidate"] += 1
